@@ -26,6 +26,7 @@ type Options struct {
 	Quiet        bool
 	Trace        bool
 	Known        []KnownRegion
+	NoCache      bool
 }
 
 type Worker struct {
@@ -36,6 +37,9 @@ type Worker struct {
 	Solver  *Solver
 	initOK  bool
 	InitSteps int64
+	qcache  map[qkey]qval
+	CacheHits int
+	EnumQ   int
 }
 
 var defaultInitAllowed = []string{
@@ -55,6 +59,8 @@ func NewWorker(prog *ssa.Program, mainpkg *ssa.Package, opts Options) (*Worker, 
 		stubsHit:   map[string]int{},
 		initAllowed: map[string]bool{},
 		regexCache: map[string]*regexModel{},
+		infoCache:  map[*ssa.Function]*funcInfo{},
+		extCache:   map[*ssa.Function]extEntry2{},
 	}
 	if opts.Trace {
 		i.mode |= EnableTracing
@@ -208,6 +214,15 @@ func (w *Worker) RunPath(name string, item WorkItem, concrete map[string]uint64)
 	}
 	ps := newPathState(name, item, w.Solver, w.opts.MaxSteps, w.opts.Unwind)
 	ps.known = w.opts.Known
+	if w.qcache == nil {
+		w.qcache = map[qkey]qval{}
+	}
+	if len(w.qcache) > 2_000_000 {
+		w.qcache = map[qkey]qval{}
+	}
+	if !w.opts.NoCache {
+		ps.qcache = w.qcache
+	}
 	if concrete != nil {
 		ps.concreteMode = true
 		ps.concrete = concrete
@@ -230,6 +245,8 @@ func (w *Worker) RunPath(name string, item WorkItem, concrete map[string]uint64)
 	i.maxSteps = 1 << 62
 	res := ps.res
 	res.Steps = i.steps
+	w.CacheHits += res.CacheHits
+	w.EnumQ += res.EnumQueries
 	res.Decisions = ps.log
 	if st == "panic" {
 		ps.panicViolation(msg)
@@ -240,6 +257,12 @@ func (w *Worker) RunPath(name string, item WorkItem, concrete map[string]uint64)
 	}
 	if st == "violation-stop" {
 		st = "ok"
+	}
+	if st == "unwound" {
+		var n int
+		if _, err := fmt.Sscanf(msg, "symbolic branch site %d", &n); err == nil {
+			msg += " at " + w.prog.Fset.Position(token.Pos(n)).String()
+		}
 	}
 	if st == "budget" && ps.budgetOK {
 		st = "ok"
@@ -270,8 +293,35 @@ func (w *Worker) RunPath(name string, item WorkItem, concrete map[string]uint64)
 
 func (w *Worker) StubsHit() map[string]int { return w.i.stubsHit }
 
+type extEntry struct {
+	fn externalFn
+	ok bool
+}
+
 // externalFor returns the model for fn, if any.  (nil, true) means "skip".
 func (i *interpreter) externalFor(fn *ssa.Function) (externalFn, bool) {
+	if e, hit := i.extCache[fn]; hit {
+		if e.ok && e.fn != nil {
+			i.stubsHit[e.name]++
+		}
+		return e.fn, e.ok
+	}
+	f, ok := i.externalFor1(fn)
+	name := ""
+	if ok && f != nil {
+		name = fn.String()
+	}
+	i.extCache[fn] = extEntry2{f, ok, name}
+	return f, ok
+}
+
+type extEntry2 struct {
+	fn   externalFn
+	ok   bool
+	name string
+}
+
+func (i *interpreter) externalFor1(fn *ssa.Function) (externalFn, bool) {
 	if fn.Parent() != nil {
 		return nil, false
 	}
